@@ -299,3 +299,241 @@ def chain_take():
         print('REPLAY: VIOLATION-CONFIRMED take() of a chained sequence does not return item indices[k] at position k')
     else:
         print('REPLAY: not reproduced (%d cases)' % cases)
+
+
+# ------------------------------------------------------------------ StructuredTransforms (contracts/c11_struct.py) --
+
+def _structured(dims, vals, nrefine):
+    """real StructuredTransforms from per-axis (i, j, mod); boundary axes are IntAxis (ibound = axis number, side False)"""
+    from nutils import transformseq, transform
+    axes = []
+    for k, (d, (i, j, mod)) in enumerate(zip(dims, vals)):
+        axes.append(transformseq.DimAxis(i, j, mod, False) if d else transformseq.IntAxis(i, j, mod, k, False))
+    return transformseq.StructuredTransforms(transform.Index(len(dims), 0), tuple(axes), nrefine)
+
+
+def _user_tails(seq, taillen):
+    """user tails: chains of child transforms of the element reference (line**fromdims), all of them for short tails"""
+    from nutils import element
+    if taillen == 0:
+        return [()]
+    ref = element.LineReference()**seq.fromdims if seq.fromdims else element.PointReference()
+    ct = list(ref.child_transforms)
+    return [tuple(c) for c in itertools.product(ct, repeat=taillen)][:16]
+
+
+def _roundtrip_fails(seq, i, tail):
+    try:
+        x = seq[i]
+        k, t = seq.index_with_tail(x + tail)
+    except Exception as e:
+        return 'self[%d] / index_with_tail raised %s: %s' % (i, type(e).__name__, e)
+    if k != i:
+        return 'index_with_tail(self[%d] + tail) returned index %d' % (i, k)
+    if t != tail and not (len(t) == len(tail) and same_map(t, tail)):
+        return 'index_with_tail(self[%d] + tail) returned the tail %r for %r' % (i, t, tail)
+    return None
+
+
+def structured_roundtrip(dims, nrefine, taillen, model=None, budget=4000):
+    """replay of a StructuredLookup counter-model (axis values + digits); if the model cannot be mapped to a failing input,
+    search a small family of structured sequences of the same configuration."""
+    dims = [bool(d) for d in dims]
+    model = model or {}
+
+    def num(k, default=None):
+        try:
+            return int(str(model[k]).replace('(', '').replace(')', '').replace(' ', ''))
+        except Exception:
+            return default
+    vals = [(num('axis%d.i' % k), num('axis%d.j' % k), num('axis%d.mod' % k)) for k in range(len(dims))]
+    digits = [num('digit%d' % k) for k in range(len(dims))]
+    tried = 0
+    if all(v is not None for t in vals for v in t) and all(d is not None for d in digits):
+        lens = [j - i for i, j, m in vals]
+        if all(0 < n <= 40 for n in lens) and all(0 <= d < n for d, n in zip(digits, lens)) and all(m == 0 or (m >= n) for (i, j, m), n in zip(vals, lens)):
+            seq = _structured(dims, vals, nrefine)
+            i = 0
+            for d, n in zip(digits, lens):
+                i = i * n + d
+            for tail in _user_tails(seq, taillen):
+                tried += 1
+                msg = _roundtrip_fails(seq, i, tail)
+                if msg:
+                    print('StructuredTransforms axes=%r nrefine=%d: %s' % (vals, nrefine, msg))
+                    print('REPLAY: VIOLATION-CONFIRMED lookup is not the inverse of element access (counter-model replayed)')
+                    return False
+    # search: the abstract model (uninterpreted Axis.map/unmap, child table) need not map to a failing input
+    choices = [(0, 1, 0), (0, 2, 0), (1, 3, 0), (0, 3, 0), (2, 5, 0), (0, 2, 2), (0, 3, 3), (1, 3, 4), (2, 4, 6), (3, 6, 6), (-1, 2, 3)]
+    for vals in itertools.product(choices, repeat=len(dims)):
+        seq = _structured(dims, vals, nrefine)
+        for tail in _user_tails(seq, taillen)[:4]:
+            for i in range(len(seq)):
+                tried += 1
+                msg = _roundtrip_fails(seq, i, tail)
+                if msg:
+                    print('StructuredTransforms axes=%r nrefine=%d: %s' % (list(vals), nrefine, msg))
+                    print('REPLAY: VIOLATION-CONFIRMED lookup is not the inverse of element access (found by searching a small family of structured sequences; the counter-model is abstract)')
+                    return False
+        if tried > budget:
+            break
+    print('REPLAY: not reproduced (%d structured lookups tried)' % tried)
+    return True
+
+
+def structured_foreign(what):
+    """StructuredTransforms.index_with_tail must reject (ValueError) a chain that is too short / has a foreign root / a non-Index item
+    where an Index is expected / a non-child item where a child transform is expected."""
+    from nutils import transform, element
+    seq = _structured([True, True], [(0, 4, 0), (1, 5, 0)], 1)
+    x = seq[5]
+    sq = element.LineReference()**2
+    bad = {'short': x[:3], 'root': (transform.Index(2, 7),) + x[1:], 'non-index': x[:2] + (sq.child_transforms[0],) + x[3:],
+           'non-child': x[:3] + (sq.edge_transforms[0],)}[what]
+    try:
+        r = seq.index_with_tail(bad)
+    except ValueError:
+        print('REPLAY: not reproduced (ValueError raised)')
+        return True
+    except Exception as e:
+        print('index_with_tail raised %s instead of ValueError' % type(e).__name__)
+        print('REPLAY: VIOLATION-CONFIRMED foreign chain (%s) not rejected with ValueError' % what)
+        return False
+    print('index_with_tail(%r) returned %r' % (bad, r))
+    print('REPLAY: VIOLATION-CONFIRMED foreign chain (%s) accepted by StructuredTransforms.index_with_tail' % what)
+    return False
+
+
+# ------------------------------------------------- PlainTransforms / EmptyTransforms / base helpers (contracts/c11_plain.py) --
+
+def _plain_families(seed=0, rounds=60):
+    """PlainTransforms whose elements have heads of different lengths and shared items; the items are created in shuffled order so that
+    the id() order (the sort key of the lookup table) varies"""
+    from nutils import transformseq, transform, element
+    rng = random.Random(seed)
+    line = element.LineReference()
+    ch = line.child_transforms
+    base = rng.randrange(1000, 100000)
+    for r in range(rounds):
+        nroots = rng.randint(1, 4)
+        ks = list(range(base + 10 * r, base + 10 * r + nroots))
+        rng.shuffle(ks)
+        roots = {k: transform.Index(1, k) for k in ks}  # creation order = shuffled
+        elems = []
+        for k in sorted(roots):
+            shape = rng.choice(['plain', 'split', 'deep'])
+            if shape == 'plain':
+                elems.append((roots[k],))
+            elif shape == 'split':
+                elems += [(roots[k], ch[0]), (roots[k], ch[1])]
+            else:
+                elems += [(roots[k], ch[0]), (roots[k], ch[1], ch[0]), (roots[k], ch[1], ch[1])]
+        rng.shuffle(elems)
+        yield transformseq.PlainTransforms(tuple(elems), 1, 1), elems, ch
+
+
+def plain_roundtrip(seed=0):
+    from nutils import transform
+    tried = 0
+    for seq, elems, ch in _plain_families(seed):
+        for i, e in enumerate(elems):
+            for tail in [(), (ch[0],), (ch[1], ch[0])]:
+                tried += 1
+                try:
+                    if seq[i] != e:
+                        raise AssertionError('self[%d] is not transforms[%d]' % (i, i))
+                    k, t = seq.index_with_tail(e + tail)
+                    ok = k == i and t == tail
+                    msg = 'index_with_tail(self[%d] + %r) == %r' % (i, tail, (k, t))
+                except Exception as ex:
+                    ok, msg = False, 'self[%d] / index_with_tail raised %s: %s' % (i, type(ex).__name__, ex)
+                if not ok:
+                    print('PlainTransforms(%r): %s' % (elems, msg))
+                    print('REPLAY: VIOLATION-CONFIRMED PlainTransforms lookup is not the inverse of element access (found by searching a family of plain sequences)')
+                    return False
+        # foreign chains: a root that is not in the sequence, and a proper head of an element that is itself no element
+        foreign = [(transform.Index(1, 5),), (transform.Index(1, 5), ch[0])]
+        foreign += [e[:n] for e in elems for n in range(1, len(e)) if e[:n] not in elems and not any(e[:n][:len(f)] == f for f in elems)]
+        for f in foreign:
+            tried += 1
+            try:
+                r = seq.index_with_tail(f)
+            except ValueError:
+                continue
+            except Exception as ex:
+                r = 'raised %s' % type(ex).__name__
+            print('PlainTransforms(%r).index_with_tail(%r): %r' % (elems, f, r))
+            print('REPLAY: VIOLATION-CONFIRMED a chain none of whose heads is an element is not rejected with ValueError')
+            return False
+    print('REPLAY: not reproduced (%d plain lookups tried)' % tried)
+    return True
+
+
+def empty_transforms():
+    from nutils import transformseq, transform
+    e = transformseq.EmptyTransforms(2, 1)
+    t = (transform.Index(2, 0),)
+    fails = []
+
+    def raises(f, exc):
+        try:
+            f()
+        except exc:
+            return True
+        except Exception:
+            return False
+        return False
+    if len(e) != 0:
+        fails.append('len')
+    for i in (0, -1, 3):
+        if not raises(lambda: e[i], IndexError):
+            fails.append('getitem(%d)' % i)
+    if not raises(lambda: e.index_with_tail(t), ValueError):
+        fails.append('index_with_tail')
+    if not raises(lambda: e.index(t), ValueError):
+        fails.append('index')
+    if e.contains(t) is not False or e.contains_with_tail(t) is not False or (t in e):
+        fails.append('contains')
+    if fails:
+        print('EmptyTransforms: wrong answer of %s' % ', '.join(fails))
+        print('REPLAY: VIOLATION-CONFIRMED the empty sequence claims an element')
+        return False
+    print('REPLAY: not reproduced')
+    return True
+
+
+def base_helpers():
+    """Transforms.index / contains / contains_with_tail against index_with_tail on real sequences"""
+    from nutils import transformseq, transform, element
+    line = element.LineReference()
+    ch = line.child_transforms
+    seqs = [transformseq.IndexTransforms(1, 3), transformseq.IndexTransforms(1, 3).refined(transformseq.References.uniform(line, 3)) if hasattr(transformseq, 'References') else None]
+    seqs = [s for s in seqs if s is not None]
+    seqs.append(transformseq.PlainTransforms(((transform.Index(1, 0),), (transform.Index(1, 1), ch[0])), 1, 1))
+    tried = 0
+    for seq in seqs:
+        chains = [seq[i] + tail for i in range(len(seq)) for tail in [(), (ch[0],), (ch[1], ch[1])]] + [(transform.Index(1, 77),), (transform.Index(1, 1),)]
+        for c in chains:
+            tried += 1
+            try:
+                k, tail = seq.index_with_tail(c)
+                found, exact = True, not tail
+            except ValueError:
+                found = exact = False
+            try:
+                idx = seq.index(c)
+            except ValueError:
+                idx = None
+            bad = []
+            if (idx is not None) != exact or (exact and idx != k):
+                bad.append('index(%r) == %r' % (c, idx))
+            if seq.contains(c) is not exact or (c in seq) is not exact:
+                bad.append('contains(%r) == %r' % (c, seq.contains(c)))
+            if seq.contains_with_tail(c) is not found:
+                bad.append('contains_with_tail(%r) == %r' % (c, seq.contains_with_tail(c)))
+            if bad:
+                print('%r: %s but index_with_tail %s' % (seq, '; '.join(bad), 'returns (%r, %r)' % (k, tail) if found else 'raises ValueError'))
+                print('REPLAY: VIOLATION-CONFIRMED index/contains disagree with index_with_tail')
+                return False
+    print('REPLAY: not reproduced (%d chains tried)' % tried)
+    return True
